@@ -266,6 +266,20 @@ func plans(thorough bool, rng *rand.Rand) []tracePlan {
 			ps = append(ps, tracePlan{c, n, rng.Int63n(1 << 30)})
 		}
 	}
+	// The XZ index stores sizes as base-128 integers: lengths around 2^7 and 2^14 (and, for incompressible
+	// content, block sizes a few bytes above the payload length).
+	for _, n := range []int{126, 127, 128, 129, 16383, 16384, 16385, 16500, 16512} {
+		for _, c := range classes {
+			ps = append(ps, tracePlan{c, n, rng.Int63n(1 << 30)})
+		}
+	}
+	// A stored chunk directly followed by a range-coded one (and the other way round): 64 KiB of incompressible
+	// bytes, then zeros / text.
+	for _, n := range []int{65536 + 1, 65536 + 300, 65536 + 5000, 2 * 65536, 2*65536 + 7} {
+		ps = append(ps, tracePlan{"rz:65536", n, rng.Int63n(1 << 30)})
+		ps = append(ps, tracePlan{"randtext", n, rng.Int63n(1 << 30)})
+		ps = append(ps, tracePlan{"trz:65536", n + 65536, rng.Int63n(1 << 30)})
+	}
 	if thorough {
 		for _, n := range []int{3*65536 + 1, 1<<21 - 1, 1 << 21, 1<<21 + 1, 1<<21 + 65537} {
 			for _, c := range classes {
